@@ -74,6 +74,7 @@ def run(rep, tier):
     rep.rule("R5", "freeze() sorts dict tables by offset and calls the encoder for dict and list inputs")
     rep.rule("R6", "negative line deltas are dropped only by classes that serve no version >= 3.6")
     rep.rule("R7", "a class that serves a version >= 3.6 (signed line byte) emits no constant line chunk above 127")
+    rep.rule("R9", "freeze() never returns early on a flag it assigns itself (replace() copies it) and never rewrites an integer-valued field")
     rep.rule("R8", "per table entry the emitted address bytes add up to the advance of the previous-offset tracker and the line bytes to that of the previous-line "
                    "tracker: emitted + residual is invariant over every straight-line segment and one iteration of every chunking loop; a path that skips an entry "
                    "leaves the trackers alone")
@@ -233,6 +234,7 @@ def run(rep, tier):
         em, efn = repo.functions[eq]
         nseg += conservation_rule(rep, T, mod, cname, "%s (encoder of %s)" % (eq, cname), repo.where(em, efn))
     rep.floor("conservation checks (segments and loop iterations)", nseg, 12)
+    freeze_discipline(rep, repo, "R9")
     rep.assumptions = ["the class -> served-versions table SERVES in rules/c19.py mirrors codeType2Portable's selection (decided by C01/C16)",
                        "the round trip itself and the 3.10 range semantics of Code310's encoder are value properties and are not decided"]
 
@@ -495,3 +497,47 @@ def _modified(ls, name):
         if isinstance(l, (Fall, Cont)) and name in l.env and repr(l.env[name]) != repr(ls.pre.get(name)):
             return True
     return False
+
+
+
+# ====================================================================== freeze() discipline (C19-R9, shared with C16-R4)
+INT_FIELDS = {"co_flags", "co_argcount", "co_posonlyargcount", "co_kwonlyargcount", "co_nlocals", "co_stacksize", "co_firstlineno"}
+
+
+def freeze_discipline(rep, repo, rule):
+    """freeze() is a normalisation: (a) it does not branch to an early return on an attribute that freeze() itself assigns (replace() deep-copies
+    every attribute, so such a flag makes the next freeze() of a changed copy a no-op); (b) it does not rewrite integer-valued fields, which
+    to_native() hands to types.CodeType unchanged."""
+    n = 0
+    for q, (m, fn) in sorted(repo.functions.items()):
+        if not (q.startswith("xdis.codetype.") and q.endswith(".freeze")):
+            continue
+        n += 1
+        rep.analysed(q)
+        stores = {x.attr for x in ast.walk(fn) if isinstance(x, ast.Attribute) and isinstance(x.ctx, ast.Store) and isinstance(x.value, ast.Name) and x.value.id == "self"}
+        for c in ast.walk(fn):
+            if isinstance(c, ast.Call) and isinstance(c.func, ast.Name) and c.func.id == "setattr" and len(c.args) == 3 and ast.unparse(c.args[0]) == "self" and isinstance(c.args[1], ast.Constant):
+                stores.add(c.args[1].value)
+        # (a) early returns guarded by a self-assigned attribute
+        memo = []
+        for node in ast.walk(fn):
+            if isinstance(node, ast.If) and any(isinstance(x, ast.Return) for b in node.body for x in ast.walk(b)):
+                read = set()
+                for x in ast.walk(node.test):
+                    if isinstance(x, ast.Attribute) and isinstance(x.value, ast.Name) and x.value.id == "self":
+                        read.add(x.attr)
+                    if isinstance(x, ast.Call) and isinstance(x.func, ast.Name) and x.func.id in ("getattr", "hasattr") and len(x.args) >= 2 and ast.unparse(x.args[0]) == "self" \
+                            and isinstance(x.args[1], ast.Constant):
+                        read.add(x.args[1].value)
+                flag = sorted(a for a in read & stores if not a.startswith("co_"))
+                if flag and node is not fn.body[-1]:
+                    memo.append("%s -> early return" % ", ".join(flag))
+        rep.ob(rule, q, "no-early-return-on-own-flag", not memo, expected="freeze() re-normalises whenever it is called", derived=memo or "none", where=repo.where(m, fn),
+               msg="freeze() returns early when %s, a flag it sets itself and replace() copies: a copy given a new line table or list fields is never encoded" % "; ".join(memo))
+        # (b) integer fields
+        touched = sorted(stores & INT_FIELDS)
+        aug = sorted({x.target.attr for x in ast.walk(fn) if isinstance(x, ast.AugAssign) and isinstance(x.target, ast.Attribute) and isinstance(x.target.value, ast.Name)
+                      and x.target.value.id == "self" and x.target.attr in INT_FIELDS})
+        rep.ob(rule, q, "integer-fields-untouched", not touched and not aug, expected="no store to %s" % ", ".join(sorted(INT_FIELDS)), derived=touched + aug or "none", where=repo.where(m, fn),
+               msg="freeze() rewrites %s; to_native() passes the rewritten value to types.CodeType, so the native object differs from the original" % ", ".join(touched + aug))
+    rep.floor("freeze() implementations", n, 4)
